@@ -7,6 +7,12 @@ from vcommon import ENV, WORK, build_overlay
 
 
 def run_native_test(group, test_filter, timeout=1800):
+    from vcommon import overlay_lock
+    with overlay_lock("native-" + group):
+        return _run_native_test(group, test_filter, timeout)
+
+
+def _run_native_test(group, test_filter, timeout=1800):
     ov, tree_hash, _ = build_overlay("native-" + group, [group])
     env = dict(ENV)
     env["RUSTFLAGS"] = "--cfg routinator_verif"
